@@ -51,7 +51,21 @@ Inductive payload : Type :=
 Inductive outcome : Type :=
 | Delivered (p : payload)     (* the callback / then_send event carries Ok(p) *)
 | Failed (e : kv_error)       (* ... carries Err(e) *)
-| Panicked.                   (* unwrap_* hit a response of another kind *)
+| Panicked.                   (* app / capability code panicked; not produced by crux_kv since fix e5ed299 *)
+
+(* ---- specification side: kinds, and what "unchanged" means *)
+Inductive kind : Type := KGet | KSet | KDelete | KExists | KList.
+Definition kind_eqb (a b : kind) : bool :=
+  match a, b with
+  | KGet, KGet | KSet, KSet | KDelete, KDelete | KExists, KExists | KList, KList => true
+  | _, _ => false
+  end.
+Definition call_kind (c : call) : kind :=
+  match c with CGet _ => KGet | CSet _ _ => KSet | CDelete _ => KDelete | CExists _ => KExists | CListKeys _ _ => KList end.
+Definition op_kind (o : kv_op) : kind :=
+  match o with OGet _ => KGet | OSet _ _ => KSet | ODelete _ => KDelete | OExists _ => KExists | OListKeys _ _ => KList end.
+Definition response_kind (r : kv_response) : kind :=
+  match r with RGet _ => KGet | RSet _ => KSet | RDelete _ => KDelete | RExists _ => KExists | RListKeys _ _ => KList end.
 
 (* value.rs *)
 Definition option_of_value (v : kv_value) : option bytes :=
@@ -83,35 +97,42 @@ Definition emit_command (c : call) : list kv_op :=
 Definition emit (a : api) (c : call) : list kv_op :=
   match a with Capability => emit_capability c | Command => emit_command c end.
 
-(* lib.rs:361-425 *)
+(* lib.rs `unwrap_get` ... `unwrap_list_keys` (since fix e5ed299): a well-formed response of another
+   kind than the call expects is reported to the app as
+   KeyValueError::Other { message: "unexpected response: expected <Kind>" } - it used to panic *)
+Definition kind_name (k : kind) : string :=
+  match k with KGet => "Get" | KSet => "Set" | KDelete => "Delete" | KExists => "Exists" | KList => "ListKeys" end.
+Definition mismatch_error (k : kind) : kv_error :=
+  EOther (list_byte_of_string ("unexpected response: expected " ++ kind_name k)).
+
 Definition unwrap_get (r : kv_result) : outcome :=
   match r with
   | KOk (RGet value) => Delivered (PData (option_of_value value))
-  | KOk _ => Panicked
+  | KOk _ => Failed (mismatch_error KGet)
   | KErr e => Failed e
   end.
 Definition unwrap_set (r : kv_result) : outcome :=
   match r with
   | KOk (RSet previous) => Delivered (PData (option_of_value previous))
-  | KOk _ => Panicked
+  | KOk _ => Failed (mismatch_error KSet)
   | KErr e => Failed e
   end.
 Definition unwrap_delete (r : kv_result) : outcome :=
   match r with
   | KOk (RDelete previous) => Delivered (PData (option_of_value previous))
-  | KOk _ => Panicked
+  | KOk _ => Failed (mismatch_error KDelete)
   | KErr e => Failed e
   end.
 Definition unwrap_exists (r : kv_result) : outcome :=
   match r with
   | KOk (RExists is_present) => Delivered (PStatus is_present)
-  | KOk _ => Panicked
+  | KOk _ => Failed (mismatch_error KExists)
   | KErr e => Failed e
   end.
 Definition unwrap_list_keys (r : kv_result) : outcome :=
   match r with
   | KOk (RListKeys keys next_cursor) => Delivered (PKeys keys next_cursor)
-  | KOk _ => Panicked
+  | KOk _ => Failed (mismatch_error KList)
   | KErr e => Failed e
   end.
 
@@ -124,20 +145,6 @@ Definition deliver (a : api) (c : call) (r : kv_result) : outcome :=
   | CExists _ => unwrap_exists r
   | CListKeys _ _ => unwrap_list_keys r
   end.
-
-(* ---- specification side: kinds, and what "unchanged" means *)
-Inductive kind : Type := KGet | KSet | KDelete | KExists | KList.
-Definition kind_eqb (a b : kind) : bool :=
-  match a, b with
-  | KGet, KGet | KSet, KSet | KDelete, KDelete | KExists, KExists | KList, KList => true
-  | _, _ => false
-  end.
-Definition call_kind (c : call) : kind :=
-  match c with CGet _ => KGet | CSet _ _ => KSet | CDelete _ => KDelete | CExists _ => KExists | CListKeys _ _ => KList end.
-Definition op_kind (o : kv_op) : kind :=
-  match o with OGet _ => KGet | OSet _ _ => KSet | ODelete _ => KDelete | OExists _ => KExists | OListKeys _ _ => KList end.
-Definition response_kind (r : kv_response) : kind :=
-  match r with RGet _ => KGet | RSet _ => KSet | RDelete _ => KDelete | RExists _ => KExists | RListKeys _ _ => KList end.
 
 (* the operation that says exactly what the call said *)
 Definition op_of_call (c : call) : kv_op :=
